@@ -77,31 +77,6 @@ fn ndjson(b: &[u8]) -> Option<Vec<Value>> {
     Some(v)
 }
 
-fn sse(b: &[u8]) -> Option<Vec<Value>> {
-    let mut v = vec![];
-    let text = String::from_utf8_lossy(b).to_string();
-    for block in text.split("\n\n") {
-        if block.trim().is_empty() {
-            continue;
-        }
-        let mut id = None;
-        let mut data = None;
-        for l in block.lines() {
-            if let Some(x) = l.strip_prefix("id: ") {
-                id = Some(x.to_string());
-            } else if let Some(x) = l.strip_prefix("data: ") {
-                data = Some(x.to_string());
-            }
-        }
-        let f: Value = serde_json::from_str(&data?).ok()?;
-        if f["id"].as_str() != id.as_deref() {
-            return None;
-        }
-        v.push(f);
-    }
-    Some(v)
-}
-
 pub fn cat_args(dir: &Path, rq: &Value, nth: u64, sse_out: bool) -> Vec<String> {
     let mut a = vec!["cat".to_string(), dir.to_string_lossy().to_string()];
     match rq["ctx"].as_str() {
@@ -161,6 +136,7 @@ pub fn exec(bin: &str, dir: &Path, op: &str, rq: &Value, nth: u64) -> Option<Val
             if o.code == 0 {
                 match serde_json::from_slice::<Value>(&o.stdout) {
                     Ok(f) => json!({"ok": true, "frame": f, "status": 200}),
+                    Err(_) if o.stdout.is_empty() => json!({"lost": true}),
                     Err(_) => json!({"ok": false, "err": "unparsable output", "status": -3}),
                 }
             } else {
@@ -177,25 +153,23 @@ pub fn exec(bin: &str, dir: &Path, op: &str, rq: &Value, nth: u64) -> Option<Val
             json!({"ok": o.code == 0, "status": if o.code == 0 { 204 } else { status_of(&o) }})
         }
         "read" => {
-            let want_sse = rq["path"].as_str() == Some("stream");
-            let both = nth % 3 == 0;
-            let nd = if !want_sse || both { Some(run(bin, &cat_args(dir, rq, nth, false), &[])) } else { None };
-            let ev = if want_sse || both { Some(run(bin, &cat_args(dir, rq, nth, true), &[])) } else { None };
-            let ndf = nd.as_ref().map(|o| if o.code == 0 { ndjson(&o.stdout) } else { None });
-            let evf = ev.as_ref().map(|o| if o.code == 0 { sse(&o.stdout) } else { None });
-            let main = if want_sse { ev.as_ref().unwrap() } else { nd.as_ref().unwrap() };
-            let status = if main.code == 0 { 200 } else { status_of(main) };
-            let frames = if want_sse { evf.clone().flatten() } else { ndf.clone().flatten() };
-            let mut out = json!({"frames": frames.clone().unwrap_or_default(),
-                "status": if frames.is_some() { status } else if main.code == 0 { -3 } else { status }});
-            if both {
-                out["renderings_agree"] = json!(ndf.flatten() == evf.flatten());
+            // (`xs cat --sse` is not used: the client sends `Accept: */*` ahead of `Accept: text/event-stream` and the
+            // server answers the first, so the flag has no effect - an observation outside the listed properties)
+            let o = run(bin, &cat_args(dir, rq, nth, false), &[]);
+            if o.code == 0 {
+                match ndjson(&o.stdout) {
+                    Some(frames) => json!({"frames": frames, "status": 200}),
+                    None => json!({"frames": [], "status": -3}),
+                }
+            } else {
+                json!({"frames": [], "status": status_of(&o)})
             }
-            out
         }
         "get" => {
             let o = run(bin, &["get".to_string(), d, rq["id"].as_str().unwrap().to_string()], &[]);
-            if o.code == 0 {
+            if o.code == 0 && o.stdout.is_empty() {
+                json!({"lost": true})
+            } else if o.code == 0 {
                 json!({"frame": serde_json::from_slice::<Value>(&o.stdout).unwrap_or(json!({"unparsable": true})), "status": 200})
             } else {
                 json!({"frame": null, "status": status_of(&o)})
@@ -218,6 +192,9 @@ pub fn exec(bin: &str, dir: &Path, op: &str, rq: &Value, nth: u64) -> Option<Val
         "cas_put" => {
             let body = base64::prelude::BASE64_STANDARD.decode(rq["content"].as_str().unwrap()).unwrap();
             let o = run(bin, &["cas-post".to_string(), d], &body);
+            if o.code == 0 && o.stdout.is_empty() {
+                return Some(json!({"lost": true}));
+            }
             json!({"hash": String::from_utf8_lossy(&o.stdout), "status": if o.code == 0 { 200 } else { status_of(&o) }})
         }
         "cas_read" => {
